@@ -515,6 +515,11 @@ func init() {
 			}
 			return in.fmtInt(a[0], 64, true)
 		},
+		// the window-size ioctl on the fake console's descriptor fails (as it does on a
+		// descriptor that is not a terminal); Vaxis then asks the console object
+		"golang.org/x/sys/unix.IoctlGetWinsize": func(in *Interp, fn *ssa.Function, a []Value, _ ssa.CallInstruction) Value {
+			return Tuple{zero(fn.Signature.Results().At(0).Type()), in.newError("inappropriate ioctl for device")}
+		},
 		"github.com/creack/pty.Setsize":                  intrNoop,
 		"(golang.org/x/image/draw.Kernel).Scale":         intrNoop,
 		"(*golang.org/x/image/draw.Kernel).Scale":        intrNoop,
